@@ -157,7 +157,7 @@ def run(ctx):
     rp.close()
     ctx.validated = rp.count
     hs = ["k_string_pack"] if ctx.tier == "thorough" else ["k_string_pack_small"]
-    res = kani.run_many(hs, cap_s=600 if ctx.tier == "quick" else 1800)
+    res = kani.run_many(hs, cap_s=1500 if ctx.tier == "quick" else 3000)
     kani.settle(ctx, res, lambda h: "string_pack")
     ctx.extra["states"] = ctx.obligations
     ctx.extra["transitions"] = ctx.queries
